@@ -253,3 +253,75 @@ pub fn histories(a: &HashMap<String, String>) -> i32 {
     }
     0
 }
+
+/// The example program mecab_smalldic (MeCab model files -> compiled small dictionary) followed by
+/// `tokenize -O detail` on two-word probe sentences: the connection cost of every pair of non-zero
+/// ids is read off the printed total costs.
+pub fn mecab(a: &HashMap<String, String>) -> i32 {
+    use crate::trainer_cases::gen_mecab_case;
+    let seed: u64 = a.get("seed").and_then(|s| s.parse().ok()).unwrap_or(1);
+    let n: usize = a.get("n").and_then(|s| s.parse().ok()).unwrap_or(10);
+    let bins = a.get("bins").expect("--bins");
+    let tmp = a.get("tmp").expect("--tmp");
+    let out = a.get("out").expect("--out");
+    let bin = |b: &str| format!("{bins}/{b}");
+    let mut rng = Rng::new(seed ^ 0x3ECA);
+    let mut evs: Vec<Value> = vec![];
+    for i in 0..n {
+        let c = gen_mecab_case(&mut rng);
+        let dir = format!("{tmp}/m{i}");
+        std::fs::create_dir_all(&dir).unwrap();
+        let p = |f: &str| format!("{dir}/{f}");
+        std::fs::write(p("feature.def"), &c.fdef).unwrap();
+        std::fs::write(p("right-id.def"), &c.rtext).unwrap();
+        std::fs::write(p("left-id.def"), &c.ltext).unwrap();
+        std::fs::write(p("model.def"), &c.mtext).unwrap();
+        // one single-character word per right id (W_r) and per left id (V_l); no other candidates
+        let mut lex = String::new();
+        for r in 1..c.nr {
+            lex.push_str(&format!("{},1,{},0,W{}\n", char::from_u32(0x4E00 + r as u32).unwrap(), r, r));
+        }
+        for l in 1..c.nl {
+            lex.push_str(&format!("{},{},1,0,V{}\n", char::from_u32(0x5000 + l as u32).unwrap(), l, l));
+        }
+        std::fs::write(p("lex.csv"), lex).unwrap();
+        std::fs::write(p("char.def"), "DEFAULT 0 1 0\n").unwrap();
+        std::fs::write(p("unk.def"), "DEFAULT,0,0,30000,*\n").unwrap();
+        let factor = format!("{}", c.factor);
+        let (ok, _) = run(&bin("mecab_smalldic"), &["-l", &p("lex.csv"), "-u", &p("unk.def"), "-c", &p("char.def"), "-f", &p("feature.def"),
+                                                   "-a", &p("right-id.def"), "-b", &p("left-id.def"), "-m", &p("model.def"), "-r", &factor, "-o", &p("small.dic.zst")], "");
+        let mut costs = vec![0i64; c.nr * c.nl];
+        let mut probed = true;
+        if ok {
+            let mut stdin = String::new();
+            for r in 1..c.nr {
+                for l in 1..c.nl {
+                    stdin.push(char::from_u32(0x4E00 + r as u32).unwrap());
+                    stdin.push(char::from_u32(0x5000 + l as u32).unwrap());
+                    stdin.push('\n');
+                }
+            }
+            let (tok_ok, text) = run(&bin("tokenize"), &["-i", &p("small.dic.zst"), "-O", "detail"], &stdin);
+            let toks = parse_detail(&text);
+            let mut k = 0;
+            for r in 1..c.nr {
+                for l in 1..c.nl {
+                    match toks.get(k) {
+                        Some(t) if tok_ok && t.len() == 2 => {
+                            costs[l * c.nr + r] = t[1]["tot"].as_i64().unwrap_or(0) - t[0]["tot"].as_i64().unwrap_or(0) - t[1]["c"].as_i64().unwrap_or(0);
+                        }
+                        _ => probed = false,
+                    }
+                    k += 1;
+                }
+            }
+        }
+        evs.push(json!({"ev": "mecab", "d": c.d, "malformed": c.malformed, "ok": ok, "compiled": ok && probed, "nr": c.nr, "nl": c.nl, "costs": costs, "tool": true}));
+        let _ = std::fs::remove_dir_all(&dir);
+    }
+    let mut f = std::io::BufWriter::new(std::fs::File::create(out).expect("create"));
+    for e in &evs {
+        writeln!(f, "{}", e).unwrap();
+    }
+    0
+}
